@@ -728,6 +728,11 @@ func ruleReadBufferStaysInIteration(c *Ctx, rule string) {
 					if mc, isMC := x.Call.Value.(*ssa.MakeClosure); isMC {
 						for _, b := range mc.Bindings {
 							if alias[b] {
+								// a local struct that held a slice of the buffer in one field, the
+								// field replaced by a private copy on every path to this statement
+								if al, isAl := b.(*ssa.Alloc); isAl && aliasFieldsKilledBefore(al, alias, i2) {
+									continue
+								}
 								bad = "captured by the goroutine started at " + w.instrPos(i2)
 							}
 						}
@@ -749,4 +754,100 @@ func ruleReadBufferStaysInIteration(c *Ctx, rule string) {
 		c.Anchor(rule, "-")
 		c.Bad(rule, "-", "read buffer", "-", fmt.Sprintf("only %d receive loops with a reused buffer found (server read loop and relay read loop expected): anchor gone", n))
 	}
+}
+
+// aliasFieldsKilledBefore: the local struct al holds aliases of the read buffer only through
+// stores into single fields, and each of those stores is overwritten — same field, a value that
+// is not an alias — on every path from it to the instruction `to`.
+func aliasFieldsKilledBefore(al *ssa.Alloc, alias map[ssa.Value]bool, to ssa.Instruction) bool {
+	if al.Referrers() == nil {
+		return false
+	}
+	type fs struct {
+		fa *ssa.FieldAddr
+		st *ssa.Store
+	}
+	var holds []fs
+	for _, r := range *al.Referrers() {
+		switch x := r.(type) {
+		case *ssa.Store:
+			if x.Addr == ssa.Value(al) && alias[x.Val] {
+				return false
+			}
+		case *ssa.FieldAddr:
+			for _, r2 := range *x.Referrers() {
+				switch y := r2.(type) {
+				case *ssa.Store:
+					if y.Addr == ssa.Value(x) && alias[y.Val] {
+						holds = append(holds, fs{x, y})
+					}
+				case *ssa.UnOp, *ssa.DebugRef:
+				default:
+					return false // the field's address goes elsewhere
+				}
+			}
+		}
+	}
+	if len(holds) == 0 {
+		return false
+	}
+	for _, h := range holds {
+		kill := func(in ssa.Instruction) bool {
+			st, ok := in.(*ssa.Store)
+			if !ok || alias[st.Val] {
+				return false
+			}
+			fa, ok := st.Addr.(*ssa.FieldAddr)
+			return ok && fa.X == ssa.Value(al) && fa.Field == h.fa.Field
+		}
+		if reachesWithout(h.st, to, kill) {
+			return false
+		}
+	}
+	return true
+}
+
+// reachesWithout: some CFG path from just after `from` reaches `to` without passing an
+// instruction accepted by kill.
+func reachesWithout(from, to ssa.Instruction, kill func(ssa.Instruction) bool) bool {
+	fb, tb := from.Block(), to.Block()
+	if fb == nil || tb == nil || fb.Parent() != tb.Parent() {
+		return true
+	}
+	// scan returns: reached `to`, killed
+	scan := func(b *ssa.BasicBlock, start int) (bool, bool) {
+		for i := start; i < len(b.Instrs); i++ {
+			if b.Instrs[i] == to {
+				return true, false
+			}
+			if kill(b.Instrs[i]) {
+				return false, true
+			}
+		}
+		return false, false
+	}
+	if hit, killed := scan(fb, indexIn(from)+1); hit {
+		return true
+	} else if killed {
+		return false
+	}
+	seen := map[*ssa.BasicBlock]bool{}
+	stack := append([]*ssa.BasicBlock{}, liveSuccs(fb)...)
+	for len(stack) > 0 {
+		b := stack[len(stack)-1]
+		stack = stack[:len(stack)-1]
+		if seen[b] {
+			continue
+		}
+		seen[b] = true
+		hit, killed := scan(b, 0)
+		if hit {
+			return true
+		}
+		if killed {
+			continue
+		}
+		stack = append(stack, liveSuccs(b)...)
+	}
+	return false
 }
